@@ -455,6 +455,146 @@ pub mod s1 {
     }
 }
 
+/// L2 - one call of a REAL traversal / access model on a state vector with pinned previous content
+/// (see s1 for why it is pinned): "distance is the sum of the edge lengths, time is the sum of
+/// length over table speed plus the delay of each turn taken, in the configured units".
+pub mod m {
+    use super::*;
+    use super::s::stub_names;
+    use super::s1::{one_entry_get, one_entry_get_index};
+    use routee_compass_core::model::access::access_model::AccessModel;
+    use routee_compass_core::model::access::default::turn_delays::turn_delay_access_model::TurnDelayAccessModel;
+    use routee_compass_core::model::state::state_feature::StateFeature;
+    use routee_compass_core::model::state::state_model::StateModel;
+    use routee_compass_core::model::traversal::default::distance_traversal_model::DistanceTraversalModel;
+    use routee_compass_core::model::traversal::default::speed_traversal_engine::SpeedTraversalEngine;
+    use routee_compass_core::model::traversal::default::speed_traversal_model::SpeedTraversalModel;
+    use routee_compass_core::model::traversal::state::state_variable::StateVar;
+    use routee_compass_core::model::traversal::traversal_model::TraversalModel;
+    use routee_compass_core::model::unit::{Distance, DistanceUnit, Speed, SpeedUnit};
+    use std::sync::Arc;
+
+    fn close_to(y: f64, e: f64, tol: f64) -> bool {
+        let d = if y > e { y - e } else { e - y };
+        d <= tol * e
+    }
+
+    /// the distance model adds the edge's length (stored in metres) to a miles feature, model unit km
+    #[kani::proof]
+    #[kani::stub(std::fmt::format, stub_format)]
+    #[kani::stub(routee_compass_core::model::state::state_model::StateModel::get_names, stub_names)]
+    #[kani::stub(routee_compass_core::util::compact_ordered_hash_map::CompactOrderedHashMap::get_index, one_entry_get_index)]
+    #[kani::stub(routee_compass_core::util::compact_ordered_hash_map::CompactOrderedHashMap::get, one_entry_get)]
+    #[kani::unwind(10)]
+    pub fn distance_model_edge() {
+        let sm = StateModel::new(vec![(String::from("distance"), StateFeature::Distance { distance_unit: DistanceUnit::Miles, initial: Distance::ZERO })]);
+        let model = DistanceTraversalModel::new(DistanceUnit::Kilometers);
+        let len_m = any_in(1e-2, 1e6);
+        let d0: f64 = 12.25;
+        let mut state = vec![StateVar(d0)];
+        let v = Vertex::new(0, 0.0, 0.0);
+        let e = Edge::new(kani::any(), 0, 1, len_m);
+        let r = model.traverse_edge((&v, &e, &v), &mut state, &sm);
+        kani::cover!(r.is_ok(), "edge traversed");
+        assert!(r.is_ok());
+        assert!(state.len() == 1);
+        assert!(close_to(state[0].0, d0 + len_m * (1.0 / 1609.344), 2e-3), "distance grows by the edge length, in the feature's unit (miles)");
+        assert!(state[0].0 >= d0, "distance never decreases");
+        std::mem::forget(r);
+        std::mem::forget(sm);
+        std::mem::forget(state);
+    }
+
+    /// the turn-delay access model adds the delay of the turn taken (table in seconds) to a minutes feature
+    #[kani::proof]
+    #[kani::stub(std::fmt::format, stub_format)]
+    #[kani::stub(routee_compass_core::model::state::state_model::StateModel::get_names, stub_names)]
+    #[kani::stub(routee_compass_core::util::compact_ordered_hash_map::CompactOrderedHashMap::get_index, one_entry_get_index)]
+    #[kani::stub(routee_compass_core::util::compact_ordered_hash_map::CompactOrderedHashMap::get, one_entry_get)]
+    #[kani::unwind(10)]
+    pub fn turn_delay_access_edge() {
+        let sm = StateModel::new(vec![(String::new(), StateFeature::Time { time_unit: TimeUnit::Minutes, initial: Time::ZERO })]);
+        // a table that charges only left turns and u-turns
+        let left = any_in(1e-2, 1e4);
+        let uturn = any_in(1e-2, 1e4);
+        let mut table: TableMap<Turn, Time> = TableMap::new();
+        let mut c = 0u8;
+        while c < 8 {
+            let d = if c == 4 { left } else if c == 7 { uturn } else { 0.0 };
+            table.insert(turn_of(c), Time::new(d));
+            c += 1;
+        }
+        let (a1, b0) = (any_heading(), any_heading());
+        let engine = TurnDelayAccessModelEngine {
+            edge_headings: Box::new([EdgeHeading::new(0, a1), EdgeHeading::new(b0, 0)]),
+            turn_delay_model: TurnDelayModel::TabularDiscrete { table, time_unit: TimeUnit::Seconds },
+            time_feature_name: String::new(),
+        };
+        let model = TurnDelayAccessModel { engine: Arc::new(engine) };
+        let t0: f64 = 7.5;
+        let mut state = vec![StateVar(t0)];
+        let v = Vertex::new(0, 0.0, 0.0);
+        let e_prev = Edge::new(0, 0, 1, 1.0);
+        let e_next = Edge::new(1, 1, 2, 1.0);
+        let r = model.access_edge((&v, &e_prev, &v, &e_next, &v), &mut state, &sm);
+        assert!(r.is_ok());
+        let mut raw = b0 as i32 - a1 as i32;
+        if raw > 180 {
+            raw -= 360;
+        } else if raw < -180 {
+            raw += 360;
+        }
+        let code = sector(raw as i16);
+        let w = if code == 4 { left } else if code == 7 { uturn } else { 0.0 };
+        kani::cover!(code == 4, "left turn charged");
+        kani::cover!(code == 0, "no turn, no delay");
+        assert!(close_to(state[0].0, t0 + w * (1.0 / 60.0), 2e-3), "time grows by the delay of the turn taken, in the feature's unit (minutes)");
+        assert!(state[0].0 >= t0 * (1.0 - 1e-3), "time never decreases beyond the unit table's rounding");
+        std::mem::forget(r);
+        std::mem::forget(model);
+        std::mem::forget(sm);
+        std::mem::forget(state);
+    }
+
+    /// the speed model: time grows by length / table speed, distance by the length (two features,
+    /// real by-name lookups; speed pinned per instance, length symbolic)
+    fn speed_model(speed_kph: f64) {
+        let engine = SpeedTraversalEngine {
+            speed_table: Box::new([Speed::new(speed_kph)]),
+            speed_unit: SpeedUnit::KilometersPerHour,
+            time_unit: TimeUnit::Minutes,
+            distance_unit: DistanceUnit::Kilometers,
+            max_speed: Speed::new(speed_kph),
+        };
+        let model = SpeedTraversalModel::new(Arc::new(engine));
+        let sm = StateModel::new(model.state_features());
+        assert!(sm.len() == 2);
+        let len_m = any_in(1e-2, 1e6);
+        // slots in the order the model declares its features: time, distance
+        let (t0, d0): (f64, f64) = (7.5, 12.25);
+        let mut state = vec![StateVar(t0), StateVar(d0)];
+        let v = Vertex::new(0, 0.0, 0.0);
+        let e = Edge::new(0, 0, 1, len_m);
+        let r = model.traverse_edge((&v, &e, &v), &mut state, &sm);
+        kani::cover!(r.is_ok(), "edge traversed");
+        assert!(r.is_ok());
+        assert!(state.len() == 2);
+        // minutes = metres / 1000 / kph * 60
+        assert!(close_to(state[0].0, t0 + len_m * (0.06 / speed_kph), 3e-3), "time grows by length / table speed, in the model's time unit");
+        assert!(close_to(state[1].0, d0 + len_m * 0.001, 1e-3), "distance grows by the edge length, in the model's distance unit");
+        assert!(state[0].0 >= t0 && state[1].0 >= d0, "distance and time never decrease");
+        std::mem::forget(r);
+        std::mem::forget(model);
+        std::mem::forget(sm);
+        std::mem::forget(state);
+    }
+    #[kani::proof]
+    #[kani::stub(std::fmt::format, stub_format)]
+    #[kani::stub(routee_compass_core::model::state::state_model::StateModel::get_names, stub_names)]
+    #[kani::unwind(10)]
+    pub fn speed_model_edge_45kph() { speed_model(45.0) }
+}
+
 /// L3 - one edge of a route: `EdgeTraversal::{forward_traversal, reverse_traversal}` on the
 /// fixture instance (see fixtures.rs): the access update (for the RIGHT pair of edges, in network
 /// order) and then the traversal update are applied to a copy of the given state, the input is
